@@ -24,16 +24,16 @@ const ALIASES: [(&str, &str); 8] = [
     ("Lin", "lin"),
 ];
 
-struct PairArgs {
-    a: u32,
-    b: u32,
-    common: Vec<u32>,
-    union: Vec<u32>,
-    dist: i64,
-    ov: [(u64, u64); 3],
+pub struct PairArgs {
+    pub a: u32,
+    pub b: u32,
+    pub common: Vec<u32>,
+    pub union: Vec<u32>,
+    pub dist: i64,
+    pub ov: [(u64, u64); 3],
 }
 
-fn expected_score(algo: &str, k: Kind, p: &PairArgs, ic: &BTreeMap<u32, [f64; 3]>) -> f64 {
+pub fn expected_score(algo: &str, k: Kind, p: &PairArgs, ic: &BTreeMap<u32, [f64; 3]>) -> f64 {
     let icv = |t: u32| ic[&t][k as usize];
     let resnik = p.common.iter().map(|c| icv(*c)).fold(0.0f64, f64::max);
     let lin = {
@@ -93,7 +93,7 @@ fn expected_score(algo: &str, k: Kind, p: &PairArgs, ic: &BTreeMap<u32, [f64; 3]
     }
 }
 
-fn builtin(algo: &str, k: Kind) -> Builtins {
+pub fn builtin(algo: &str, k: Kind) -> Builtins {
     let kind = ic_kind(k);
     match algo {
         "graphic" => Builtins::GraphIc(kind),
